@@ -110,7 +110,10 @@ class Project:
                     dirs.add(d)
                     w.add_dir(d)
         for rel in self.files:
-            w.add_file(root + '/' + rel, Str((Opaque('src', rel),)))
+            if rel in self.unparsable and not self.holes:
+                w.add_file(root + '/' + rel, Str(self.files[rel]))      # text that syn rejects: kept concrete
+            else:
+                w.add_file(root + '/' + rel, Str((Opaque('src', rel),)))
         for rel, txt in self.extra_files.items():
             w.add_file(root + '/' + rel, txt)
         if out_dir:
@@ -123,7 +126,7 @@ class Project:
             if len(cs) == 1 and isinstance(cs[0], Opaque) and cs[0].kind == 'src':
                 rel = cs[0].payload
                 if rel in self.unparsable:
-                    return Err(Struct('syn::Error', {'msg': Str('parse error')}))
+                    return Err(Struct('syn::Error', {'msg': Str('parse error'), 'text': Str(self.files[rel])}))
                 try:
                     return Ok(self.ast(rel))
                 except ValueError:
@@ -132,10 +135,12 @@ class Project:
             py = content.py()
             if py is None:
                 raise Inconclusive('syn::parse_file on symbolic text')
+            if any(self.files[r] == py for r in self.unparsable):
+                return Err(Struct('syn::Error', {'msg': Str('parse error'), 'text': content}))
             try:
                 return Ok(IP.syn_value(IP.AstServer.get().parse('file_data', py)))
             except ValueError:
-                return Err(Struct('syn::Error', {'msg': Str('parse error')}))
+                return Err(Struct('syn::Error', {'msg': Str('parse error'), 'text': content}))
         return parse
 
     def make_config(self, interp, root='/p', out='/out'):
